@@ -634,6 +634,16 @@ def alias_cases(rng, tier):
         if r.chance(0.4):
             yield alias_coll_case(r, tier)
             continue
+        if r.chance(0.04):
+            # process-wide state set by one stage and consulted by another: the time zone
+            n = r.choice([3, 40, 700])
+            text = "".join("t=%d,i=%d\n" % (k * 3600 * 5, k) for k in range(n))
+            user = r.choice(["$a = sec2localtime($t)", "$a = sec2localdate($t)", "$a = strftime_local($t, \"%H\", \"Asia/Istanbul\")", "$a = localtime2sec(\"1970-01-02 00:00:00\")"])
+            setter = r.choice(["ENV[\"TZ\"] = \"Asia/Tokyo\"", "NR == 2 { ENV[\"TZ\"] = \"America/Sao_Paulo\" }", "end { ENV[\"TZ\"] = \"Asia/Tokyo\" }"])
+            verbs = [["put", user], ["put", setter]] if r.chance(0.7) else [["put", setter], ["put", user]]
+            yield {"kind": "alias", "args": ["mlr"] + chain_args(verbs) + ["in0.txt"], "files": {"in0.txt": text}, "env": {"TZ": "UTC"}, "cseed": r.randint(1, 1 << 40),
+                   "nconf": 5 if tier == "quick" else 8}
+            continue
         n = r.choice([2, 5, 12, 40, 600, 1300])
         recs = []
         for k in range(n):
